@@ -1,7 +1,7 @@
 """shared machinery for the derive-level properties (C01-C06, C13, C15-C17): shape catalogue + seeded random
 shapes compiled against the REAL macro, request generation, evaluation against the model and against the
 properties themselves (oracles that do not involve the model)."""
-import random, collections, json
+import random, collections, json, re
 import core, sx, shapes
 from core import hbump
 
@@ -16,8 +16,25 @@ def make_shapes(tier, seed, features=(), extra_random=None):
 
 def build(res, tier, seed, features, with_setters=False, shapes_list=None, profile='release'):
     sh = shapes_list if shapes_list is not None else make_shapes(tier, seed, features)
-    shapes.write_shapes(sh, with_setters)
-    binp = core.build_harness(res, features, profile=profile, shapes_written=True)
+    binp = None
+    for attempt in range(4):
+        shapes.write_shapes(sh, with_setters)
+        binp = core.build_harness(res, features, profile=profile, shapes_written=True)
+        if binp is not None:
+            break
+        # isolate the shapes whose derive output no longer compiles: each is a concrete failing declaration; the
+        # remaining shapes are still built and explored (a semantic failure may hide behind the compile failure)
+        bad = shapes.blame(getattr(res, 'cargo_full', ''))
+        if not bad:
+            break
+        first_err = re.search(r'^(error(\[E\d+\])?: [^\n]*)', getattr(res, 'cargo_full', ''), re.M)
+        for i in bad:
+            res.corr['impl_failures'].append({'request': 'declaration (a shape of the generated catalogue):\n' + shapes.shape_text(sh[i])[-2500:],
+                                              'shape': json.dumps(shapes.lean_ty(sh[i]))[:600],
+                                              'what': 'a derivable type of the shape catalogue is rejected (the derive output does not compile): ' + (first_err.group(1) if first_err else 'see log'),
+                                              'error_kind': 'shape-rejected', 'log': getattr(res, 'cargo_full', '')[-1500:]})
+        res.note(f'{len(bad)} shape(s) no longer compile; continuing with the remaining {len(sh) - len(bad)}')
+        sh = [x for i, x in enumerate(sh) if i not in bad]
     return sh, binp
 
 
